@@ -419,36 +419,43 @@ theorem fields_empty_of_flatMap {L : List Chunk} (h : (L.flatMap (·.fields)).is
   have := List.flatMap_eq_nil_iff.mp h c hc
   exact this
 
+/-- **pruning completeness**: a well-placed file whose coverage meets the period keeps its
+whole chain of directories, whatever the layout -/
+theorem dirs_kept {cfg : Config} {q : Query} {s e ds : Nat} {f : FileRec}
+    (hper : period cfg q = .ok (s, e, ds)) (hwp : wellPlaced cfg f = true)
+    (hw : whiteOk q.filters.white f.users = true) (h0 : f.t0 ≤ e) (h1 : s ≤ f.t1) :
+    dirsOk q.filters.white ds e [] {} cfg.layout f.dirs = true := by
+  unfold wellPlaced at hwp
+  simp only [Bool.and_eq_true, decide_eq_true_eq] at hwp
+  obtain ⟨⟨⟨⟨⟨w1, w2⟩, w3⟩, w4⟩, w5⟩, w6⟩ := hwp
+  apply dirsOk_of_placed q.filters.white f.t0 ds e (by omega) h0 cfg.layout f.dirs [] {}
+    (accOf_nil _) w1 w2
+  · rw [List.all_eq_true] at w6 ⊢
+    intro v hv
+    exact whiteOk_sub _ _ _ (w6 v hv) hw
+  · obtain ⟨_, _, _, hcase⟩ := period_ok hper
+    rcases hcase with ⟨hl, _⟩ | ⟨h0, _⟩ | ⟨r, hr, hrs, hds⟩
+    · right; rw [hl]; exact ⟨rfl, by simp⟩
+    · left; omega
+    · rw [hr] at w5
+      simp only [Bool.or_eq_true, decide_eq_true_eq] at w5
+      rcases w5 with h5 | h5
+      · right; exact ⟨rfl, fields_empty_of_flatMap h5⟩
+      · left; omega
+
 theorem keep_of_sel {cfg : Config} {q : Query} {s e ds : Nat} {f : FileRec}
     (hper : period cfg q = .ok (s, e, ds)) (hwp : wellPlaced cfg f = true)
     (h : sel cfg q.filters s e f = true) : keep cfg q.filters s e ds f = true := by
   unfold sel at h
   simp only [Bool.and_eq_true] at h
   obtain ⟨⟨⟨ho, hx⟩, hw⟩, hb⟩ := h
-  unfold wellPlaced at hwp
-  simp only [Bool.and_eq_true, decide_eq_true_eq] at hwp
-  obtain ⟨⟨⟨⟨⟨w1, w2⟩, w3⟩, w4⟩, w5⟩, w6⟩ := hwp
-  unfold overlaps at ho
-  simp only [decide_eq_true_eq] at ho
-  have hdirs : dirsOk q.filters.white ds e [] {} cfg.layout f.dirs = true := by
-    apply dirsOk_of_placed q.filters.white f.t0 ds e (by omega) ho.1 cfg.layout f.dirs [] {}
-      (accOf_nil _) w1 w2
-    · rw [List.all_eq_true] at w6 ⊢
-      intro v hv
-      exact whiteOk_sub _ _ _ (w6 v hv) hw
-    · obtain ⟨_, _, _, hcase⟩ := period_ok hper
-      rcases hcase with ⟨hl, _⟩ | ⟨h0, _⟩ | ⟨r, hr, hrs, hds⟩
-      · right; rw [hl]; exact ⟨rfl, by simp⟩
-      · left; omega
-      · rw [hr] at w5
-        simp only [Bool.or_eq_true, decide_eq_true_eq] at w5
-        rcases w5 with h5 | h5
-        · right; exact ⟨rfl, fields_empty_of_flatMap h5⟩
-        · left; omega
+  have ho' := ho
+  unfold overlaps at ho'
+  simp only [decide_eq_true_eq] at ho'
+  have hdirs := dirs_kept hper hwp hw ho'.1 ho'.2
   unfold keep
   simp only [Bool.and_eq_true]
-  refine ⟨⟨⟨⟨hdirs, hw⟩, ?_⟩, hx⟩, hb⟩
-  unfold overlaps; exact decide_eq_true ho
+  exact ⟨⟨⟨⟨hdirs, hw⟩, ho⟩, hx⟩, hb⟩
 
 theorem keep_eq_sel {cfg : Config} {q : Query} {s e ds : Nat} {f : FileRec}
     (hper : period cfg q = .ok (s, e, ds)) (hwp : wellPlaced cfg f = true) :
